@@ -1,4 +1,4 @@
------------------------------- MODULE SimData ------------------------------
+------------------------------ MODULE SimLife ------------------------------
 (* simulation front-end of Core: random behaviours of fixed length, printed as JSON schedules *)
 EXTENDS MCBase, Json
 CONSTANT D
